@@ -11,4 +11,6 @@ for c in "$@"; do
   echo "check $c: rc=$? $(grep -c '^VIOLATION' $D/check_$c.log) violation line(s), $(grep '^VIOLATION' $D/check_$c.log | grep -vc no-failing-input-found) with input" | tee -a $D/recheck.txt
 done
 git -C /repo checkout -- .
+# the evidence written while the patch was applied describes the patched tree: restore the committed files
+git -C /verif checkout -- evidence/ 2>/dev/null
 git -C /repo status --short | grep -v '^??'
